@@ -30,6 +30,9 @@ for name in sorted(os.listdir(os.path.join(VERIF, "seeded"))):
         notes = open(os.path.join(d, "summary.txt")).read().strip()
     except FileNotFoundError:
         pass
+    if notes:
+        meta["needs_to_manifest"] = notes + " (details: notes.md)"
+        json.dump(meta, open(mp, "w"), indent=1)
     rows.append((name, meta["breaks_property"], notes, verdicts, meta.get("quick_tier_verdicts_at_intake", {})))
     print(f"| {name} | {meta['breaks_property']} | {notes} | " +
           ", ".join(f"{k}: {v.lower()}" + (" (intake: survived)" if meta.get('quick_tier_verdicts_at_intake', {}).get(k) == 'SURVIVED' and v == 'KILLED' else "")
